@@ -116,6 +116,11 @@ def run(ctx):
             continue
         seen.add(text)
         items.append(dict(id="m%d" % n, text=text, mouts=e["mouts"] or None))
+    # literal-bearing programs of the literal model (MC_C07): `let v = <literal>;print(v);`
+    lits, _ = c02.mc_export(ctx, "MC_C07", "MC_C07_quick.cfg")
+    ctx.rng.shuffle(lits)
+    for n, e in enumerate(lits[:2000 if quick else 12000]):
+        items.append(dict(id="l%d" % n, text=bytes(e["src"]).decode("latin-1"), mouts=None))
     from props import c06
     for f in c06.fixture_items():       # the repository's fixtures print through console.log
         items.append(dict(id=f["id"], text=f["text"], mouts=None))
